@@ -355,7 +355,9 @@ class Responder():
         if u'date' not in self.headers:  # create Date header
             self.headers[u'date'] = httping.httpDate1123(datetime.datetime.now(datetime.UTC))
 
-        if self.chunkable and ('transfer-encoding' not in self.headers or
+        # chunked only without content-length. Decided here, not in .start, since
+        # start_response may be called again (exc_info) with other headers
+        if self.chunkable and self.length is None and ('transfer-encoding' not in self.headers or
                                self.headers['transfer-encoding'] == 'chunked'):
             self.chunked = True
             self.headers[u'transfer-encoding'] = u'chunked'
@@ -424,7 +426,6 @@ class Responder():
 
         if u'content-length' in self.headers:
             self.length = int(self.headers['content-length'])
-            self.chunkable = False  # cannot use chunking with finite content-length
         else:
             self.length = None
 
